@@ -351,6 +351,11 @@ Agree(J, hasJ, lines, hasP, p3, has3, X, a) ==
       IN IF Cardinality(views) <= 1 THEN {} ELSE {<<Fam("C15.agree", IF DryGap(a, X, s) THEN KF_DRY ELSE "none"), "reports_differ">>}
       : s \in a.scens}
 
+\* the named exception predicates of the defect families, under the names of DESIGN.md
+KF_C15_dryrun_undefined_no_callbacks(a, X, s) == DryGap(a, X, s)
+KF_C15_json_status_on_rule_background(els, j, X) == BgCarries(els, j, X)
+KF_C15_match_arguments_none(e, fx) == e.name = "match" /\ e.bad /\ ~fx.argsnone
+KF_C15_readback_background_duplicated(rb) == rb.npre > 0
 \* families of the code as it is (DESIGN section 8 #4 #11 #12 #13): modelled by (S), rejected by (P)
 KnownFamilies == {"C15.grammar/" \o KF_DRY, "C15.json_mirror/" \o KF_DRY, "C15.plain_once/" \o KF_DRY, "C15.agree/" \o KF_DRY,
                   "C15.json_mirror/" \o KF_BG, "C15.no_crash/" \o KF_ARG, "C15.json_readback/" \o KF_RB}
